@@ -48,6 +48,15 @@ CHECKS = {
         'the relational model of Python scoping (language reference 4.2.2). Locals that may be unbound, instance attributes and failing imports are outside the claim. '
         'One known finding (util.iir reads undefined fs).',
    technique='Coq proof (checker soundness/completeness) applied by vm_compute to a model regenerated from the source by a translator'),
+ 'C07': dict(
+   text='Real-number theorems (round trip level->volts->level, inverse, attenuation/gain/fixed gain as pure dB offsets, +20 dB <=> x10, all '
+        'constructors consistent, mV/Pa round trip) proved about definitions REGENERATED from calibration.py/util.py on every run by a fail-closed '
+        'AST translator; rational-number theorems for the interpolation / point-lookup model (table points reproduced, affine between neighbours, '
+        'None outside, mean over a range fails on any uncalibrated frequency), that model being tied to the code by a Q-valued correspondence.',
+   ref='DESIGN.md section 6 C07', note='Trusted: Coq kernel; real-number axioms of the Coq standard library (sig_forall_dec, sig_not_dec, functional_extensionality_dep, classic); '
+        'translate/pyexpr2coq.py (with its own numeric self-test); float evaluation of log10/10**x is not modelled (laws proved over R, observed to 1e-9 in binary64); '
+        'scipy interp1d modelled as piecewise linear with NaN outside.',
+   technique='Coq proof over R about translator-regenerated definitions + Q-model correspondence for interpolation'),
 }
 
 PENDING = 'not yet built in this round (framework is being extended property by property; see DESIGN.md section 8)'
